@@ -32,7 +32,7 @@ TEXT.update({
     "C09": T("Without a timeout the outputs must equal the greedy reference batching computed from the script; with a timeout every non-maximal non-final slice must arrive at least Timeout after the write-start of the last element of the previous slice (exact virtual nanoseconds).",
              BUB + "Lower bound anchored at the producer's write-start (<= the discipline's timer reset).",
              "property-based testing (rapid) on a fake clock; greedy reference model + exact lower-bound oracle", "4/C09"),
-    "C10": T("Timeout>0, always-ready consumer: (receive - accept) * d <= Timeout * (d+1) for every element, in integers on the fake clock (latency is exactly 0, so the bound is tight: a pause or tick period off by 1 ns fails).",
+    "C10": T("Timeout>0: (receive - accept) * d <= Timeout * (d+1) for every element of a slice the consumer was ready for (always ready, or already blocked in the receive before the first element of the slice was offered), in integers on the fake clock (latency is exactly 0, so the bound is tight: a pause or tick period off by 1 ns fails).",
              BUB + "Verifies the algorithmic bound, not the OS timer.",
              "property-based testing (rapid) on a fake clock; exact upper-bound oracle", "4/C10"),
     "C11": T("Unite scripts with slice lengths from {0,1,2,3,J-1,J,J+1,2J} and timeouts: output boundaries must be input boundaries, order preserved, oversize inputs delivered alone.",
